@@ -21,11 +21,11 @@ META = dict(
     technique='Lean 4 invariant proof by induction over operation sequences + per-operation correspondence with collada.util.IndexedList',
 )
 LEAN_MODULES = ['Pyc.Model.IndexedList']
-IDS = ['a', 'b', 'c', 'd', '']       # the empty string is an id like any other (a key that is falsy)
+IDS = ['aa', 'bb', 'cc', 'dd', '']       # the empty string is an id like any other (a key that is falsy)
 
 
 # ids asked for: those in use, one that is not, and look-alikes of those in use (a URI fragment, other case, padding)
-PROBES = IDS + ['zz', '#a', '#b', '#', 'A', ' a', 'a ']
+PROBES = IDS + ['zz', '#aa', '#bb', '#', 'AA', ' aa', 'aa ']
 
 
 def tok(i):
@@ -174,7 +174,7 @@ class Impl(object):
 
     def obj(self, o):
         if o[0] not in self.objs:
-            self.objs[o[0]] = O(o[0], (o[1] + '.')[:-1])      # every element has its id in a string object of its own (equal ids, not identical ones)
+            self.objs[o[0]] = O(o[0], ('.' + o[1])[1:])      # every element has its id in a string object of its own (equal ids, not identical ones; CPython shares one-character strings)
         return self.objs[o[0]]
 
     def state(self):
